@@ -323,7 +323,7 @@ def mon_sig(sc, r):
 # ------------------------------------------------------------------------------------------------ stop (C12)
 
 STOP_MS = 700
-PHASES = ["run", "timeout", "grace", "delay", "stop-shutdown-cont", "info", "grace-shutdown", "grace-stop-second-shutdown", "grace-twice", "drain"]
+PHASES = ["run", "timeout", "grace", "delay", "stop-shutdown-cont", "info", "grace-shutdown", "grace-stop-second-shutdown", "grace-twice", "drain", "delay-twice"]
 RETRY_OVERRIDE = """
 [[profile.default.overrides]]
 filter = 'test(/^delay_/)'
@@ -341,7 +341,8 @@ def gen_stop(seed, k):
     if phase == "run":
         # runs 900 ms of running time under a 1200 ms deadline: stopped 700 ms in the middle it must still pass, un-signalled
         t = {"bin": "t_one", "pkg": "alpha", "name": "work_0", "kind": "work", "run_ms": 900}
-        sc.test("t_one", "work_0", ["ignore:18", "work:900", "exit:0"]); tests.append(t)
+        # (a descendant in the test's process group lives through the stop: the whole group must be stopped, not only its leader)
+        sc.test("t_one", "work_0", ["ignore:18", "child:850", "work:900", "exit:0"]); tests.append(t)
         t2 = {"bin": "t_two", "pkg": "alpha", "name": "fast_1", "kind": "fast", "run_ms": 30}
         sc.test("t_two", "fast_1", ["work:30", "exit:0"]); tests.append(t2)
         # (corpus: stopped 300 ms into the first 400 ms period — a resumed period that forgot its length would end the test early)
@@ -372,6 +373,13 @@ def gen_stop(seed, k):
         extra = RETRY_OVERRIDE
         d = rng.choice([200, 600])
         sigs = [("TestAttemptFailedWillRetry", 1, d, signal.SIGTSTP), ("TestAttemptFailedWillRetry", 1, d + STOP_MS, signal.SIGCONT)]
+    elif phase == "delay-twice":
+        # two stop/continue cycles of 900 ms inside one 1500 ms retry delay: each pause is excluded once, not cumulatively
+        t = {"bin": "t_one", "pkg": "alpha", "name": "delay_0", "kind": "delay", "delay": 1500}
+        sc.test("t_one", "delay_0", {"1": ["exit:1"], "2": ["work:40", "exit:0"]}); tests.append(t)
+        extra = RETRY_OVERRIDE
+        tr = "TestAttemptFailedWillRetry"
+        sigs = [(tr, 1, 200, signal.SIGTSTP), (tr, 1, 1100, signal.SIGCONT), (tr, 1, 1400, signal.SIGTSTP), (tr, 1, 2300, signal.SIGCONT)]
     elif phase == "stop-shutdown-cont":
         # stopped, then a shutdown signal arrives while stopped, then continued: both are seen together on resumption
         G = 600
@@ -430,7 +438,7 @@ def mon_stop(sc, r):
         ncyc = len([1 for (_, s) in sent if s == signal.SIGTSTP])
         if len(paused) != ncyc or len(cont) != ncyc: V("pause-events", f"[{phase}] RunPaused x{len(paused)}, RunContinued x{len(cont)} for {ncyc} stop/continue cycle(s)")
     stopped_ms = ms(t_cont - t_stop) if t_stop and t_cont else 0
-    if phase == "grace-twice":
+    if phase in ("grace-twice", "delay-twice"):
         tst = [ns for (ns, s) in sent if s == signal.SIGTSTP]; tct = [ns for (ns, s) in sent if s == signal.SIGCONT]
         stopped_ms = sum(ms(c - a) for a, c in zip(tst, tct))
     for t in m["tests"]:
@@ -452,6 +460,11 @@ def mon_stop(sc, r):
             gaps = [g for (_, g) in p.get("gaps", [])]
             if not gaps or (sum(gaps) if phase == "grace-twice" else max(gaps)) < stopped_ms - 250: V("test-not-stopped", f"[{phase}] test {t['name']} was not stopped while nextest was (gaps in its own clock: {gaps}, nextest stopped {stopped_ms:.0f} ms)")
             if 18 not in [s for (s, _) in sigs]: V("test-not-continued", f"[{phase}] test {t['name']} never received SIGCONT (signals {sigs})")
+        if kind == "work" and phase == "run" and alive_during_stop:
+            # its descendant (same process group) must have been stopped with it
+            for c in [q for q in r.procs if q.get("child") and q.get("ppid") == p.get("pid") and q.get("start") and q["start"] < t_stop and (not q.get("end") or q["end"][1] > t_stop)]:
+                cg = [g for (_, g) in c.get("gaps", [])]
+                if not cg or max(cg) < stopped_ms - 250: V("group-not-stopped", f"[{phase}] a descendant (pid {c.get('pid')}, same process group) of test {t['name']} kept running while nextest and the test were stopped for {stopped_ms:.0f} ms (gaps in its own clock: {cg}): SIGTSTP must stop the test's whole process group")
         if kind == "work":
             if res != "P": V("result", f"[{phase}] test {t['name']} needs {t['run_ms']} ms of running time (deadline {K * P} ms) but is reported {res}")
             if [s for (s, _) in sigs if s in (15, 9)]: V("signalled", f"[{phase}] test {t['name']} was signalled {sigs}: time spent stopped was charged against its slow-timeout")
@@ -517,7 +530,7 @@ def mon_stop(sc, r):
             if i == 0 and not any(hx("delay_1") in d and "DelayBeforeNextAttempt" in d for d in rs): V("info-state", f"request 1 (300 ms in): delay_1 is waiting out its retry delay but answered {rs}")
             if i == 0 and not any(hx("work_0") in d and "Running" in d for d in rs): V("info-state", f"request 1 (300 ms in): work_0 is running but answered {rs}")
         if r.exit != 0: V("exit", f"information requests changed the outcome: exit {r.exit}")
-    if phase in ("run", "delay", "drain") and r.exit != 0: V("exit", f"[{phase}] exit status {r.exit}, expected 0 (stop/continue must not change results)")
+    if phase in ("run", "delay", "drain", "delay-twice") and r.exit != 0: V("exit", f"[{phase}] exit status {r.exit}, expected 0 (stop/continue must not change results)")
     if phase in ("timeout", "grace", "grace-twice") and r.exit != 100: V("exit", f"[{phase}] exit status {r.exit}, expected 100")
     return out
 
